@@ -207,3 +207,23 @@ theorem decode_tracks_mono (s : State) (o : Op) (id : Nat) (h : s.tracks id ≠ 
   · rw [decode_frame s o id hid]; exact h
 
 end Rtsp.TimeDec
+
+namespace Rtsp.TimeDec
+
+theorem run_tracks_mono (ops : List Op) : ∀ (s : State) (id : Nat), s.tracks id ≠ none →
+    (run s ops).1.tracks id ≠ none := by
+  induction ops with
+  | nil => intro s id h; exact h
+  | cons o os ih =>
+    intro s id h
+    have : (run s (o :: os)).1 = (run (decode s o).1 os).1 := rfl
+    rw [this]
+    exact ih _ id (decode_tracks_mono s o id h)
+
+/-- once a track has started, every later packet of it gets a PTS (unless its clock rate is 0),
+whatever happens on the other tracks in between -/
+theorem started_keeps_decoding (s : State) (ops : List Op) (o : Op) (h : s.tracks o.id ≠ none)
+    (hr : o.rate ≠ 0) : (decode (run s ops).1 o).2.isSome = true :=
+  (decode_isSome_iff _ o).2 ⟨hr, Or.inl (run_tracks_mono ops s o.id h)⟩
+
+end Rtsp.TimeDec
